@@ -178,7 +178,7 @@ def r4(run, db):
             for par, site, s in creation_sites(db, lp):
                 targets.append(("message-loop future", site))
         for nm, site in targets:
-            good = ok_edge is not None and lb.edge_dominates(ok_edge, site) and len(brs) >= 2 and all(b["cont_edge"] and lb.edge_dominates(b["cont_edge"], site) for b in brs)
+            good = ok_edge is not None and lb.edge_dominates(ok_edge, site) and result_layers_checked(brs, (2, 3)) and all(b["cont_edge"] and lb.edge_dominates(b["cont_edge"], site) for b in brs)
             run.check(good, "%s|%s-after-post_start-ok" % (rt, nm), "%s is dominated by the Ok edge of the post_start race and by the Continue edges of its %d `?`" % (nm, len(brs)),
                       "%s is reachable although post_start failed or was interrupted" % nm, lb.where())
         # the loop cycles: process step inside a cycle in the loop block, exit only via should_exit
@@ -271,7 +271,7 @@ def r5(run, db):
         run.check(loop_aw.completes_before(c.site), "%s|post_stop-after-loop" % rt, "post_stop is dominated by the completion (Ready edge) of the message-loop future",
                   "post_stop can start before the message loop completed", c.where())
         brs = try_branches_on(lb, loop_aw.poll)
-        run.check(len(brs) >= 2 and all(b["cont_edge"] and lb.edge_dominates(b["cont_edge"], c.site) for b in brs), "%s|post_stop-on-ok" % rt,
+        run.check(result_layers_checked(brs, (1, 2)) and all(b["cont_edge"] and lb.edge_dominates(b["cont_edge"], c.site) for b in brs), "%s|post_stop-on-ok" % rt,
                   "post_stop is dominated by the Continue edges of both `?` on the loop result (no post_stop after a panic or handler error)",
                   "post_stop is reachable on an Err/panic outcome of the loop (%d `?` found)" % len(brs), c.where())
         # the killed flag of the loop result: post_stop only on its not-killed edge
